@@ -50,11 +50,24 @@ def main():
     demo_tests = [os.path.splitext(os.path.basename(p))[0] for p in placed]
     demo_pkgs = [os.path.relpath(p, wt).split(os.sep)[0] for p in placed]
 
-    def run_demo():
+    def run_demo(repeat=1, load=False):
+        # race-dependent demos are repeated (optionally under CPU load); rc != 0 if any run failed
         res = {}
-        for pkg, t in zip(demo_pkgs, demo_tests):
-            r = sh(f"cargo test -p {pkg} --test {t} --offline 2>&1", cwd=wt)
-            res[t] = {"rc": r.returncode, "failed": sorted(failed_tests(r.stdout))}
+        burners = []
+        if load:
+            burners = [subprocess.Popen(["python3", "-c", "import time\nt=time.time()\nwhile time.time()-t<240: pass"]) for _ in range(14)]
+        try:
+            for pkg, t in zip(demo_pkgs, demo_tests):
+                fails, failed = 0, set()
+                for _ in range(repeat):
+                    r = sh(f"cargo test -p {pkg} --test {t} --offline 2>&1", cwd=wt)
+                    if r.returncode != 0:
+                        fails += 1
+                        failed |= failed_tests(r.stdout)
+                res[t] = {"rc": 1 if fails else 0, "runs": repeat, "failing_runs": fails, "failed": sorted(failed)}
+        finally:
+            for b in burners:
+                b.kill()
         return res
 
     # state: change applied (as the agent left it)
@@ -65,6 +78,12 @@ def main():
         r2 = sh(f"git apply {patch}", cwd=wt)
         assert r2.returncode == 0, "patch neither applied nor applicable: " + r.stderr + r2.stderr
     with_change = run_demo()
+    if all(v["rc"] == 0 for v in with_change.values()):
+        # maybe a race-dependent demonstration: repeat, then repeat under load
+        with_change = run_demo(repeat=4)
+        if all(v["rc"] == 0 for v in with_change.values()):
+            with_change = run_demo(repeat=4, load=True)
+            meta["demo_needed_cpu_load"] = True
     suite = sh("cargo test --workspace --no-fail-fast --offline 2>&1", cwd=wt)
     ft = failed_tests(suite.stdout)
     other = sorted(t for t in ft if not t.endswith(KNOWN) and not any(k in t for k in KNOWN))
@@ -72,9 +91,12 @@ def main():
     demo_failed = set()
     for v in with_change.values():
         demo_failed |= set(v["failed"])
-    unexpected = [t for t in other if t not in demo_failed]
+    # tests defined in the demo files themselves are never "unexpected"
+    demo_src = " ".join(open(p).read() for p in placed)
+    unexpected = [t for t in other if t not in demo_failed and ("fn " + t.split("::")[-1]) not in demo_src]
     sh(f"git apply -R {patch}", cwd=wt)
-    without_change = run_demo()
+    racy = any(v.get("runs", 1) > 1 for v in with_change.values() if isinstance(v, dict))
+    without_change = run_demo(repeat=3 if racy else 1, load=racy)
     sh(f"git apply {patch}", cwd=wt)
     meta["worktree_confirmation"] = {
         "demo_with_change": with_change,
